@@ -23,6 +23,25 @@ MULVEC = {"Mat2": [("mul_vec2", "Vec2")], "Mat3": [("mul_vec3", "Vec3"), ("mul_v
           "Mat4": [("mul_vec4", "Vec4")], "DMat2": [("mul_vec2", "DVec2")], "DMat3": [("mul_vec3", "DVec3")], "DMat4": [("mul_vec4", "DVec4")]}
 
 
+MUF = """
+pub mod {mod} {{
+    use glam::*; use crate::mk::*;
+    static mut T_MM: MemoK<{N}> = MemoK::new(<{N}>::ZERO);
+    static mut T_MV: MemoK<{V}> = MemoK::new(<{V}>::ZERO);
+    static mut T_ADD: MemoK<{N}> = MemoK::new(<{N}>::ZERO);
+    static mut T_SUB: MemoK<{N}> = MemoK::new(<{N}>::ZERO);
+    static mut T_MS: MemoK<{N}> = MemoK::new(<{N}>::ZERO);
+    static mut T_DS: MemoK<{N}> = MemoK::new(<{N}>::ZERO);
+    pub fn mul_mat(a: &{N}, b: &{N}) -> {N} {{ unsafe {{ T_MM.get(kcat(a.mbits(), b.mbits(), [0; 4]), mk()) }} }}
+    pub fn mul_vec(a: &{N}, v: {V}) -> {V} {{ unsafe {{ T_MV.get(kcat(a.mbits(), [0; 16], v.words()), mk()) }} }}
+    pub fn add_mat(a: &{N}, b: &{N}) -> {N} {{ unsafe {{ T_ADD.get(kcat(a.mbits(), b.mbits(), [0; 4]), mk()) }} }}
+    pub fn sub_mat(a: &{N}, b: &{N}) -> {N} {{ unsafe {{ T_SUB.get(kcat(a.mbits(), b.mbits(), [0; 4]), mk()) }} }}
+    pub fn mul_scalar(a: &{N}, s: {t}) -> {N} {{ unsafe {{ T_MS.get(kcat(a.mbits(), [0; 16], s.words()), mk()) }} }}
+    pub fn div_scalar(a: &{N}, s: {t}) -> {N} {{ unsafe {{ T_DS.get(kcat(a.mbits(), [0; 16], s.words()), mk()) }} }}
+}}
+"""
+
+
 def mctor(M, ai):
     w, NN = M.w, M.N
     if M.name == "Mat3A":
@@ -38,7 +57,7 @@ def vctor(V, w, n, vi):
 
 def build(config, tier):
     backend = core.CONFIGS[config]["backend"]
-    contracts, obs = [], []
+    contracts, obs, extra = [], [], []
     for M in MATS:
         if config != "sse2" and not M.simd:
             continue
@@ -49,15 +68,10 @@ def build(config, tier):
         big = (n == 4)
         # ---- woven FD contracts
         for (meth, V) in MULVEC[N]:
-            lanes = []
-            for r in range(n):
-                terms = ", ".join("self.to_cols_array()[%d] * rhs.to_array()[%d]" % (c * n + r, c) for c in range(n))
-                lanes.append("__verif::sum%d_%d(r.to_array()[%d], %s)" % (n, w, r, terms))
-            c = Contract("glam::%s::%s" % (N, meth), f, "impl %s" % N, meth, ensures="|r: &%s| %s" % (V, " && ".join(lanes)), props=[PROP])
-            contracts.append(c)
-            obs.extend(contract_ob("%s_%s" % (pre, meth), PROP, c, [("self", "mk::<%s>()" % N), ("rhs", "mk::<%s>()" % V)], "self_.%s(rhs)" % meth,
-                                   solver="cvc5", stubs=["sse"], cls="structure", tier="quick" if (M.simd or n < 4) else "thorough",
-                                   desc="%s::%s lane r == sum_c entry(r,c)*v[c] (single-rounded products, any association order), full domain" % (N, meth)))
+            lanes = [("r[%d]" % r, ["m[%d] * v[%d]" % (c * n + r, c) for c in range(n)]) for r in range(n)]
+            obs.extend(core.tree_obs("%s_%s" % (pre, meth), PROP, "let a = mk::<%s>(); let x = mk::<%s>(); let m = a.to_cols_array(); let v = x.to_array(); let r = a.%s(x).to_array();" % (N, V, meth), lanes, w,
+                                     fn="%s::%s" % (N, meth), tier="quick" if (M.simd or n < 4) else "thorough",
+                                     desc="%s::%s lane r == sum_c entry(r,c)*v[c] (single-rounded products, any association order), full domain" % (N, meth)))
         for (meth, sym, rhs_t, rhs_ctor, form) in (("add_mat%d" % n, "+", "&" + N, "mk::<%s>()" % N, "mm"), ("sub_mat%d" % n, "-", "&" + N, "mk::<%s>()" % N, "mm"),
                                                    ("mul_scalar", "*", t, "vk::any::<%s>()" % t, "ms"), ("div_scalar", "/", t, "vk::any::<%s>()" % t, "ms")):
             if form == "mm":
@@ -74,20 +88,36 @@ def build(config, tier):
                      ensures="|r: &%s| %s" % (N, " && ".join("__verif::leq%d(r.to_cols_array()[%d], -self.to_cols_array()[%d])" % (w, i, i) for i in range(NN))), props=[PROP])
         contracts.append(c)
         obs.extend(contract_ob("%s_neg" % pre, PROP, c, [("self", "mk::<%s>()" % N)], "-self_", solver="cadical", stubs=["sse"], cls="lane", desc="-%s entry == -a" % N))
-        # ---- forwarding: operators == named methods, A*B column-wise through mul_vec (UF arithmetic, plain crate)
-        V0 = MULVEC[N][0]
+        # ---- forwarding: operators == named methods, A*B column-wise through mul_vec.  The named methods
+        # are replaced by uninterpreted functions of the operand bits (plain crate: no woven contracts)
+        mv = [m_ for (m_, V_) in MULVEC[N] if V_ == M.col][0]
+        mod = "muf_%s_%s" % (config, ln)
+        extra.append(MUF.format(mod=mod, N=N, V=M.col, t=t, n=n, mv=mv))
+        P = "glam::%s" % N
+        fw_stubs = [("%s::mul_mat%d" % (P, n), "crate::%s::mul_mat" % mod), ("%s::%s" % (P, mv), "crate::%s::mul_vec" % mod),
+                    ("%s::add_mat%d" % (P, n), "crate::%s::add_mat" % mod), ("%s::sub_mat%d" % (P, n), "crate::%s::sub_mat" % mod),
+                    ("%s::mul_scalar" % P, "crate::%s::mul_scalar" % mod), ("%s::div_scalar" % P, "crate::%s::div_scalar" % mod)]
         fw = ["let a = mk::<%s>(); let b = mk::<%s>(); let v = mk::<%s>(); let s: %s = vk::any();" % (N, N, M.col, t)]
         fw.append('check!(mk::msame(a * b, a.mul_mat%d(&b)), "A * B == mul_mat");' % n)
-        mv = [m_ for (m_, V_) in MULVEC[N] if V_ == M.col][0]
         fw.append('check!(mk::same(a * v, a.%s(v)), "A * v == mul_vec");' % mv)
-        for c_ in range(n):
-            fw.append('check!(mk::same((a * b).col(%d), a.%s(b.col(%d))), "column %d of A*B is A * B.col(%d)");' % (c_, mv, c_, c_, c_))
         fw.append('check!(mk::msame(a + b, a.add_mat%d(&b)) && mk::msame(a - b, a.sub_mat%d(&b)), "A + B, A - B");' % (n, n))
         fw.append('check!(mk::msame(a * s, a.mul_scalar(s)) && mk::msame(s * a, a.mul_scalar(s)) && mk::msame(a / s, a.div_scalar(s)), "A * s, s * A, A / s");')
-        fw.append('{ let mut x = a; x *= b; let mut y = a; y += b; let mut z = a; z -= b; let mut u = a; u *= s; let mut q = a; q /= s; check!(mk::msame(x, a * b) && mk::msame(y, a + b) && mk::msame(z, a - b) && mk::msame(u, a * s) && mk::msame(q, a / s), "assign forms"); }')
-        obs.append(Ob("%s_forwarding" % pre, PROP, "\n    ".join(fw), fn="%s operators" % N, kind="lemma", solver="cadical", stubs=["sse_uf", "arith_uf%d" % w], plain=True,
+        obs.append(Ob("%s_forwarding_ops" % pre, PROP, "\n    ".join(fw), fn="%s operators" % N, kind="lemma", solver="cadical", stubs=["sse"] + fw_stubs, plain=True,
                       clauses=len(fw) - 1, cls="forwarding",
-                      desc="%s: operator forms equal the named methods bit-for-bit and column c of A*B is A.mul_vec(B.col(c)), primitive + - * / uninterpreted" % N))
+                      desc="%s: operator forms equal the named methods bit-for-bit (named methods uninterpreted)" % N))
+        fw = ["let a = mk::<%s>(); let b = mk::<%s>(); let s: %s = vk::any();" % (N, N, t)]
+        fw.append('{ let mut x = a; x *= b; check!(mk::msame(x, a.mul_mat%d(&b)), "*="); }' % n)
+        fw.append('{ let mut y = a; y += b; let mut z = a; z -= b; check!(mk::msame(y, a.add_mat%d(&b)) && mk::msame(z, a.sub_mat%d(&b)), "+= -="); }' % (n, n))
+        fw.append('{ let mut u = a; u *= s; let mut q = a; q /= s; check!(mk::msame(u, a.mul_scalar(s)) && mk::msame(q, a.div_scalar(s)), "*= s, /= s"); }')
+        obs.append(Ob("%s_forwarding_assign" % pre, PROP, "\n    ".join(fw), fn="%s assign operators" % N, kind="lemma", solver="cadical", stubs=["sse"] + fw_stubs, plain=True,
+                      clauses=len(fw) - 1, cls="forwarding", desc="%s: assign operator forms equal the named methods bit-for-bit (named methods uninterpreted)" % N))
+        # column c of mul_mat is mul_vec of column c (only mul_vec uninterpreted)
+        fw = ["let a = mk::<%s>(); let b = mk::<%s>(); let p = a.mul_mat%d(&b);" % (N, N, n)]
+        for c_ in range(n):
+            fw.append('check!(mk::same(p.col(%d), a.%s(b.col(%d))), "column %d of A*B is A * B.col(%d)");' % (c_, mv, c_, c_, c_))
+        obs.append(Ob("%s_mul_mat_columns" % pre, PROP, "\n    ".join(fw), fn="%s::mul_mat%d" % (N, n), kind="lemma", solver="cadical",
+                      stubs=["sse", ("%s::%s" % (P, mv), "crate::%s::mul_vec" % mod)], plain=True, clauses=n, cls="forwarding",
+                      desc="%s::mul_mat%d: column c of A*B is bit-for-bit A.%s(B.col(c)) for any function in place of %s - the product law follows from the mul_vec contract" % (N, n, mv, mv)))
         # ---- exact lattice
         eqi = "sp::eqi%d" % w
         B = 1
@@ -139,13 +169,13 @@ def build(config, tier):
         obs.append(Ob("c03_sse2_canary_mul_vec_transposed", PROP,
                       'let ai = sp::lat9(1); let a = mk::mat3a_of(sp::f32x9(ai)); let vi = sp::lat3(1); let v = mk::vec3a_of(sp::f32x3(vi)); let r = a * v; let mut ti = ai; ti[1] = ai[3]; ti[3] = ai[1]; let e = sp::mv3(ti, vi); check!(sp::eqi32(r.to_array()[0], e[0]) && sp::eqi32(r.to_array()[1], e[1]), "row-vector convention");',
                       fn="Mat3A * Vec3A", kind="canary", expect="refute", desc="canary: M*v specified with two entries transposed"))
-    return contracts, obs
+    return contracts, obs, "\n".join(extra)
 
 
 def run(s):
     for cfg in ("sse2", "scalar"):
-        contracts, obs = build(cfg, s.tier)
-        s.run_config(cfg, contracts, obs)
+        contracts, obs, extra = build(cfg, s.tier)
+        s.run_config(cfg, contracts, obs, extra_rust=extra)
     s.assumptions += [
         "A3: off the exact lattice the float result of the verified expression tree is within the standard rounding bound of its real value (not machine-checked)",
         "A4: two polynomials of degree <= 2 per variable that agree on {-1,0,1}^n are identical (lattice lemma, DESIGN 3.5); determinant of Mat3 uses [-2,2], Mat2 [-8,8]",
